@@ -105,7 +105,15 @@ func (t *Ticket) Unmarshal(b []byte) error {
 
 // Marshal the Ticket.
 func (t *Ticket) Marshal() ([]byte, error) {
-	b, err := asn1.Marshal(*t)
+	// Only the fields that are part of the ASN1 definition of a Ticket are marshaled.
+	// The decrypted encrypted part, which holds the session key in the clear, must never be added to the encoding.
+	tk := Ticket{
+		TktVNO:  t.TktVNO,
+		Realm:   t.Realm,
+		SName:   t.SName,
+		EncPart: t.EncPart,
+	}
+	b, err := asn1.Marshal(tk)
 	if err != nil {
 		return nil, err
 	}
